@@ -9,9 +9,9 @@ package ledger
 // minimum balance, accounts R (rich), T (target), U). All instances share this ledger
 // read-only; a state is one BlockEvaluator holding the accepted groups of the history.
 //
-// Alphabet: every op is ONE transaction group that first brings the acting account (T, or W's
-// app account) to exactly  min-balance-after-the-op + own fees + delta  and then performs the
-// op, delta in {-1, 0, +1} Algos-micro (so every threshold is straddled, whatever the
+// Alphabet: every op is ONE transaction group that first brings the acting account (T, U, or
+// W's app account) to exactly  min-balance-after-the-op + own fees + delta  and then performs
+// the op, delta in {-1, 0, +1} microAlgos (so every threshold is straddled, whatever the
 // account already holds):
 //   T: set balance to min+delta; pay everything but the fee (no close); asset opt-in /
 //      create / opt-out; app create with global schema (ints,bytes) in {0,1,max}^2 subset and
@@ -19,7 +19,16 @@ package ledger
 //      close the account; rekey to U; a group where T closes and is re-funded below minimum;
 //   W (inner transactions issued by the app, funded through the app account): box create
 //      {1, 1024 bytes}, box resize up/down, box delete, inner asset opt-in / opt-out, inner
-//      app create with schema, inner pay-out leaving min+delta, inner close-out.
+//      app create with schema, inner pay-out leaving min+delta / everything above the minimum,
+//      inner close-out;
+//   family boxes (AVM v13): S, an app of the same creator as W (W has opted into
+//      AppFamilyBoxAccess with app_params_set in the set-up block), works in W's box namespace:
+//      app_box_create, app_box_put on a box that does not exist yet / that exists (made by S or
+//      by W itself), app_box_resize, app_box_del; the deposit belongs to the OWNER W;
+//   size sponsorship (AppSizeUpdates): app X of R approves updates and deletes by anyone; U (who
+//      holds local state of its own) and T resize X with a size-changing update (global schema,
+//      extra pages) and become its size sponsor, R resizes it back, U updates without size
+//      change, R deletes X; U sets its balance to min+delta.
 // Bound: all histories of <= 3 groups (quick) / <= 4 with a reduced alphabet (thorough) in one
 // block. A rejected group is "not enabled".
 //
@@ -33,9 +42,19 @@ package ledger
 // accumulates from the resource-level records of the ledger and of every accepted delta —
 // with the consensus constants, independently of basics.MinBalance and of the Total*
 // counters in AccountData:
-//      M = MinBalance*(1+#holdings) + AppFlatParams*(#created + extra pages) + AppFlatOptIn*#optins
-//          + sum over schemas (PerEntry*(u+b) + Uint*u + Bytes*b) + BoxFlat*#boxes + BoxByte*sum(len(name)+len(value))
-// A zero AccountData must come with no enumerated resources.
+//      M = MinBalance*(1+#holdings) + AppFlatParams*#created + AppFlatOptIn*#optins
+//          + sum over local schemas and over the global schemas + extra pages of the apps the account
+//            SPONSORS (PerEntry*(u+b) + Uint*u + Bytes*b, AppFlatParams*pages)
+//          + BoxFlat*#boxes + BoxByte*sum(len(name)+len(value))
+// An app's size is charged to its creator until someone performs a size-changing update; the
+// harness tracks the sponsor from the update transactions it submitted, not from the record.
+// Boxes are attributed to the app whose id is in the kv key, whoever created them. Checked are
+// all accounts of the delta plus every account whose enumerated resources changed (box owner,
+// resource-record owner, old and new sponsor, senders). A zero AccountData must come with no
+// enumerated resources.
+// KNOWN FINDING (unchanged tree): an account that sponsors the size of somebody else's app can
+// close; every violation in a history containing such a close is reported under the key
+// C21:orphaned-size-sponsorship (see /verif/findings/C21-sponsor-close-escapes-size-deposit).
 //
 // Not covered: accounts with pending rewards > 0 (the pool is kept at its minimum, level 0),
 // the database-committed form of the state (C08/C12/C23), online accounts, clawback/freeze.
@@ -45,6 +64,8 @@ package ledger
 //   M2 ledger/eval/eval.go         checkMinBalance iterates the parent's modified accounts
 //   M3 ledger/eval/eval.go         "empty account" exemption tests only MicroAlgos == 0
 //   M4 data/basics/userBalance.go  MinBalance ignores the app opt-in flat cost
+// Seeded changes (independent): C21-A (app_box_put charges the calling app for a new family box)
+// and C21-B (stale SizeSponsor after the creator takes sponsorship back): both DETECTED.
 
 import (
 	"encoding/binary"
@@ -731,16 +752,11 @@ func (s *c21sys) violation(key, format string, args ...any) error {
 	msg := fmt.Sprintf(format, args...)
 	if s.orphaned {
 		msg = "[history contains the close of an account that was sponsoring the size of another account's app] " + msg
-		if os.Getenv("VERIF_C21_DEV_ORPHAN_AS_NOTE") != "" { // development only: lets the exploration go on before the finding is listed
-			s.w.orphanHits.Add(1)
-			return errC21orphanDev
-		}
+		s.w.orphanHits.Add(1)
 		key = "C21:orphaned-size-sponsorship"
 	}
 	return ve.Violationf(key, "%s", msg)
 }
-
-var errC21orphanDev = errors.New("orphaned sponsorship (dev)")
 
 func c21short(w *c21world, a basics.Address) string {
 	switch a {
@@ -1156,6 +1172,15 @@ func c21ops() []c21op {
 			return []*txntest.Txn{s.tune(s.w.other, c21target(s.min(s.w.other), d))}
 		})
 	}
+	// the reduced ("core") alphabet of the deepest level: the ops that spend or release deposits
+	core := map[string]bool{"T balance := min-1": true, "T balance := min+0": true, "T pays all but fee (no close)": true,
+		"T closes account to R": true, "T deletes its newest app": true, "T asset opt-out then balance := min": true,
+		"U balance := min-1": true, "U balance := min+0": true, "R deletes X": true, "R (creator) resizes X to 4/1": true,
+		"U resizes X to 8/0+0": true, "W pays out everything above its minimum": true, "S app_box_del W/\"f\"": true,
+		"W inner pay-out leaving min-1": true}
+	for i := range ops {
+		ops[i].core = core[ops[i].name]
+	}
 	return ops
 }
 
@@ -1175,9 +1200,6 @@ func (s *c21sys) apply(op int, coreOnly bool) (bool, error) {
 		return false, nil
 	}
 	ok, err := s.submit(txs)
-	if err == errC21orphanDev {
-		return false, nil
-	}
 	if err != nil {
 		var v *ve.Violation
 		if errors.As(err, &v) {
@@ -1274,9 +1296,7 @@ func TestVerif_C21(t *testing.T) {
 	r.Set("op_accepted_rejected_incl_replays", stats)
 	r.Set("rejected_groups_skipped", w.rejected.Load())
 	r.Set("sponsor_account_closed_transitions", w.sponsorClosed.Load())
-	if n := w.orphanHits.Load(); n > 0 {
-		r.Note("DEVELOPMENT RUN: %d violations of class C21:orphaned-size-sponsorship were downgraded by VERIF_C21_DEV_ORPHAN_AS_NOTE", n)
-	}
+	r.Set("violations_attributed_to_orphaned_size_sponsorship", w.orphanHits.Load())
 	cov.Rule = fmt.Sprintf("BFS over all histories of <= %d transaction groups from a %d-op alphabet%s (each op tunes the acting account to exactly the post-op minimum balance + delta, delta in {-1,0,+1}, then performs: payment, asset opt-in/create/opt-out, app create with schemas/extra pages, app opt-in/close-out/clear/delete, account close, rekey, and through an app account: box create/resize/delete, inner asset opt-in/out, inner app create, inner pay-out, inner close) in one block on the real evaluator; after every accepted group every modified account is zero or holds >= the minimum balance recomputed from its enumerated resources, which must equal the repo's MinBalance",
 		depth, len(w.ops), map[bool]string{false: "", true: fmt.Sprintf(", plus a %dth group from the %d-op core alphabet", coreDepth, nCore)}[coreDepth > depth])
 	r.Assume("group deltas (account records, asset/app resource records, kv records) are observed through the exported EvalTracer.AfterTxnGroup hook")
